@@ -74,6 +74,11 @@ CHECKS["C07"] = dict(cat="exploration", engine="wire",
    text="A real server in a race-instrumented child; 2-3 raw connections register up to 6 random monitor requests (any subset of tables/columns or columns omitted, all select flag combinations incl. omitted select, methods monitor/monitor_cond/monitor_cond_since); a writer connection commits generated transactions (GC, weak pruning, several rows, failing transactions). Per (transaction, monitor): at most one message, exactly one when a selected kind of change exists, none for no net effect or for a failed transaction, right method and id, every changed row has an entry, no entry for unchanged rows/deselected kinds/unrequested tables or columns unless vacuous, and applying the entry to the pre-row yields the post-row on the monitored projection (v1: new overlaid on old; v2: update2 difference rules). Held = on the pairs observed.",
    note="Monitor conditions are not used (ignored by the built-in server). Snapshots of the server database are taken in-process.", ref="4/C07")
 
+CHECKS["C01"] = dict(cat="exploration", engine="wire",
+   technique="differential runtime monitor (client cache vs server database after every committed transaction, deterministic quiescence) with a verif-tagged pause point pinning both processing orders; race detector on",
+   text="A library client and the library server in one race-instrumented child; a raw writer commits a generated history (all column kinds, GC, weak pruning, several rows per transaction). The client sets up up to three monitors at PRNG-chosen points with each of monitor / monitor_cond / monitor_cond_since on subsets of tables and columns; with the client.monitor.reply pause point a transaction touching the new monitor's tables is committed after the monitor reply was received and before its contents are applied (both orders are taken and counted, for first and additional monitors). After every committed transaction, and after every monitor set-up, the whole cache is compared with the whole database on the monitored tables and columns; a quarter of the transactions are issued by the monitoring client itself and its cache is read the moment Transact returns. Held = on the comparisons made.",
+   note="Quiescence by construction (synchronous notification before the transact reply). Database snapshots are taken in-process.", ref="4/C01")
+
 NOT_YET = "check not built yet (work in progress in this round); no claim is made"
 
 def main():
